@@ -3,10 +3,13 @@
 Seam      django_components.util.template_parser.parse_template(src) (the function the
           patched Template.compile_nodelist feeds to Django's Parser) and, part B, the
           public route Template(src) with a debug and a non-debug engine.
-Alphabet  23 source fragments (FRAGMENT_NAMES): text, newline, {{ }}, {# #}, {% %} tags with
-          0..2 quoted strings (both quote kinds, escaped quote, embedded `%}` / `}}` /
-          newline), a multi-line tag, verbatim openers / closers (plain, named, quoted name),
-          unterminated constructs.  The fragments are uniquely decodable, so fragment
+Alphabet  29 source fragments (FRAGMENT_NAMES): text, newline, {{ }}, {# #}, {% %} tags with
+          0..2 quoted strings (both quote kinds, escaped quote, string ending in an escaped
+          backslash `"q\\\\"` / `'q\\\\'` - closing quote after an even run of backslashes -,
+          embedded `%}` / `}}` / newline), a multi-line tag, verbatim openers / closers (plain,
+          named, quoted name after a space / a tab / a newline - stock Django enters verbatim
+          mode only for contents[:9] in ("verbatim", "verbatim "), so only the space form
+          does), unterminated constructs.  The fragments are uniquely decodable, so fragment
           sequences are distinct sources.
 Bound     every sequence of <= L fragments (quick L=4 lexer + L=3 public route; thorough
           L=5 + L=4) plus every sequence of exactly L+1 fragments over the 11-fragment
@@ -26,8 +29,13 @@ Oracle    (1) spans contiguous from 0 to len(src), non-empty;
           The reference is itself validated against stock on every quote-free source
           (disagreement = harness error, exit 2).
           Part B: Template(src + '{% bogus %}') must fail exactly like Django's Parser run on
-          the reference tokens: same message ("... on line N ..."), same failing token
-          (contents, position, lineno) and, debug engine, the same template_debug dict.
+          the reference tokens: same exception class, same message ("... on line N ..."), same
+          failing token (contents, position, lineno) and, debug engine, the same template_debug
+          dict.  The class is TemplateSyntaxError except where a stock compile function itself
+          crashes on the stock stream: `{% verbatim<TAB|NL>"q" %}{{ v }}{% endverbatim %}` is
+          not a verbatim block for the lexer, so Django's `verbatim` tag renders a VariableNode
+          with a template-less Context at compile time -> AttributeError, with or without
+          django_components (class "stock-raises-AttributeError" in the evidence).
 
 Agnostic / excluded corners (accepted under either reading)
 * backslash escapes inside quoted strings are honoured (as Django's own smart_split does);
@@ -38,6 +46,8 @@ Agnostic / excluded corners (accepted under either reading)
 * where the reference finds the tag unterminated the implementation may raise
   TemplateSyntaxError or return any stream satisfying 1-3.
 * quoted verbatim names whose quoted part contains `%}` are not generated.
+* part B, agnostic sources: only "no hang, and no exception other than TemplateSyntaxError or
+  one raised by a tag's compile function (it carries Parser.error()'s `.token`)" is asserted.
 """
 from __future__ import annotations
 
@@ -585,6 +595,9 @@ def run(ctx):
         "backslash escapes inside quoted strings are honoured by the reference (Django smart_split convention)",
         "multiline_tags=False with a quote-aware rescan crossing a newline, and tags the reference finds unterminated, are checked for clauses 1-3 only",
         "states counts fragment sequences; the fragments are uniquely decodable, so these are distinct sources",
+        "public_route: where Django's own Parser raises something other than TemplateSyntaxError on the reference stream (the verbatim tag "
+        "rendering a non-text body at compile time when the lexer did not enter verbatim mode) Template(src) must raise the same class, "
+        "message, token and template_debug (class stock-raises-<Exception>)",
     ]
 
 
